@@ -677,12 +677,14 @@ class IPAddr6 (_AddrBase):
         raise RuntimeError("Host part of CIDR address is not zero (%s)"
                            % (addr,))
       return (r0,128-r1)
-    addr = addr.split('/', 2)
+    addr = addr.split('/')
+    if len(addr) > 2:
+      raise RuntimeError("Bad CIDR format (%s)" % (addr_and_net,))
     if len(addr) == 1:
       return check(IPAddr6(addr[0]), 0)
-    try:
+    if addr[1] and all(c in '0123456789' for c in addr[1]):
       wild = 128-int(addr[1])
-    except:
+    else:
       # Maybe they passed a netmask
       m = IPAddr6(addr[1]).num
       b = 0
@@ -858,7 +860,9 @@ def parse_cidr (addr, infer=True, allow_host=False):
       raise RuntimeError("Host part of CIDR address is not zero (%s)"
                          % (addr,))
     return (r0,32-r1)
-  addr = addr.split('/', 2)
+  addr = addr.split('/')
+  if len(addr) > 2:
+    raise RuntimeError("Bad CIDR format (%s)" % ('/'.join(addr),))
   if len(addr) == 1:
     if infer is False:
       return check(IPAddr(addr[0]), 0)
@@ -871,9 +875,9 @@ def parse_cidr (addr, infer=True, allow_host=False):
     else:
       # Some bits in the wildcarded part are set, so we'll assume it's a host
       return check(addr, 0)
-  try:
+  if addr[1] and all(c in '0123456789' for c in addr[1]):
     wild = 32-int(addr[1])
-  except:
+  else:
     # Maybe they passed a netmask
     m = IPAddr(addr[1]).toUnsigned()
     b = 0
